@@ -103,7 +103,7 @@ func c14Targets(tier string) []c14Target {
 		add(gen.StructSpec{Fields: []gen.FieldType{pick("int64"), f, pick("int")}, Tags: []string{"zz", "b", "a"}})
 	}
 	add(gen.StructSpec{Fields: []gen.FieldType{pick("string"), pick("Inner"), pick("string")}, Tags: []string{"zz", ",inline", "a"}})
-	for _, v := range []interface{}{SeedMyInt(0), SeedMyMap(nil), SeedMySlice(nil), SeedRec{}, SeedRecSlice{}, SeedWithUnexported{}, SeedNamedFields{}, SeedBad1{}, SeedBad3{}, SeedBad4{}, SeedArrField{}, SeedMyArr{}, map[int]string(nil), [2]int{}, SeedHolder{}, SeedTreeMap(nil), SeedTreeSlice(nil), SeedPtrList(nil), SeedMapOfSlices(nil), SeedHasTrees{}} {
+	for _, v := range []interface{}{SeedMyInt(0), SeedMyMap(nil), SeedMySlice(nil), SeedRec{}, SeedRecSlice{}, SeedWithUnexported{}, SeedNamedFields{}, SeedBad1{}, SeedBad3{}, SeedBad4{}, SeedArrField{}, SeedMyArr{}, map[int]string(nil), [2]int{}, SeedHolder{}, SeedTreeMap(nil), SeedTreeSlice(nil), SeedPtrList(nil), SeedMapOfSlices(nil), SeedHasTrees{}, map[SeedKey]int(nil), map[SeedKey]seedEmbedded(nil), map[SeedKey]*int(nil), map[SeedKey][]string(nil), SeedKeyed{}} {
 		out = append(out, c14Target{name: fmt.Sprintf("%T", v), t: reflect.TypeOf(v)})
 	}
 	return out
